@@ -10,20 +10,22 @@ from .. import gen as G
 LEVEL = "proof"
 READY = True
 CLAIM = {
-    "text": "Lean theorems over ALL selection lists that are prefix-disjoint with ascending per-array order: the model of Query._select / _patch_obj / _fix_sparse_arrays "
-            "builds exactly the trie of the selected locations (integer-keyed levels compacted to arrays in rank order), every selected value is found at the rank-compacted "
-            "location, the projection has no other leaves, flat projection is the list of selected values in selection order, root projection is the same located from the root, "
-            "non-containers and empty selections produce nothing. Tied to fluent_api.py by differential execution on generated documents / match queries / relative query lists; "
-            "non-modification of the document (including under overlapping selections, which the theorems exclude) is decided by a before/after deep comparison on every case.",
-    "note": "Trusted: Lean kernel; model JP.Projection; overlapping selections (one selected location a proper prefix of another) are outside the theorems - for them only "
-            "non-modification is checked; 'the document is not modified' is an effect decided by observation.",
+    "text": "Lean theorems over ALL selection lists taken from the match's value, in any order and however they overlap (one selected location a prefix of, or equal to, another): "
+            "the model of Query._select / _patch_obj / _fix_sparse_arrays (patchAllO, which walks into already copied values) is defined, the intermediate object is a pruning of "
+            "the match's value, every selected value is found at its location with each array index on the way replaced by its position among the indices selected in that array "
+            "(overlapping_compaction), and every leaf sits at a selected location and holds the value the match has there (overlapping_no_extra_leaves). For prefix-disjoint lists "
+            "the older, stronger statements (the leaves are a permutation of the selected values) are kept. Flat projection is the list of selected values in selection order, root "
+            "projection is the same located from the root, non-containers and empty selections produce nothing. Tied to fluent_api.py by differential execution on generated "
+            "documents / match queries / relative query lists, overlapping ones included; non-modification of the document is decided by a before/after deep comparison on every case.",
+    "note": "Trusted: Lean kernel; model JP.Projection; position = rank needs per-array selections in ascending order (the property's quantifier), descending lists are compared with "
+            "the model only; 'the document is not modified' is an effect decided by observation.",
     "technique": "Lean 4 theorems on the projection model (trie invariant by induction over the selection list) + differential correspondence + before/after probes",
 }
 RULE = ("documents x match queries x lists of 1-3 relative queries (names, indices, slices, wildcards, nested) with ascending per-array order, under the three projection styles; "
-        "falsy leaves (0 false '' [] {}), integer-looking member names; a separate overlapping-selection stream checks only that the document is not modified; "
+        "falsy leaves (0 false '' [] {}), integer-looking member names; an overlapping-selection stream (a container and locations below it, two or three selections, both orders, whole arrays then elements) compared with the model and with an independent trie; "
         "non-trivial = the match is a container and something is selected")
 TRUSTED = ["Lean 4.33 kernel; standard axioms only", "model JP/Projection.lean tied to fluent_api.py by this differential run"]
-ASSUMPTIONS = ["relative queries select strictly below the match", "per-array selections in ascending order, no selected location is a proper prefix of another (as the property / theorem state)"]
+ASSUMPTIONS = ["relative queries select strictly below the match", "per-array selections in ascending order (as the property states) for the rank clause"]
 
 DOCS = [
     {"a": [0, {"x": 2, "y": 3}], "b": {"c": [1, 2, 3], "d": "s"}, "1": "one", "e": 0, "f": False, "g": "", "h": [], "i": {}},
@@ -70,23 +72,52 @@ def path_tokens(path):
 
 
 def relations(parts_list):
-    """True if no location is a proper prefix of (or equal to) another and per-array indices ascend."""
+    """(ascending, disjoint): per-array indices ascend in selection order; no location is a prefix of (or equal to) another."""
     ps = [tuple(p) for p in parts_list]
     if any(len(p) == 0 for p in ps):
-        return False
+        return False, False
+    disjoint = True
     for i, a in enumerate(ps):
         for j, b in enumerate(ps):
             if i != j and len(a) <= len(b) and b[:len(a)] == a:
-                return False
+                disjoint = False
     last = {}
     for p in ps:
         for d, part in enumerate(p):
             if isinstance(part, int):
                 pre = p[:d]
                 if pre in last and part < last[pre]:
-                    return False
+                    return False, disjoint
                 last[pre] = max(part, last.get(pre, part))
-    return True
+    return True, disjoint
+
+
+def spec_overlap(pairs):
+    """Selections that may overlap: a trie in first-insertion order in which a selected location is *whole* (it holds the
+    value selected there; nothing below it is listed separately, whether it was selected before or after)."""
+    WHOLE = object()
+    root = {}
+    for parts, v in pairs:
+        node = root
+        for d, k in enumerate(parts):
+            key = (type(k), k)
+            if d == len(parts) - 1:
+                node[key] = (WHOLE, v)
+                break
+            nxt = node.get(key)
+            if isinstance(nxt, tuple):
+                break                      # below a whole selection: already there
+            if nxt is None:
+                nxt = node[key] = {}
+            node = nxt
+
+    def build(n):
+        if isinstance(n, tuple):
+            return copy.deepcopy(n[1])
+        if all(t is int for t, _ in n):
+            return [build(n[key]) for key in sorted(n, key=lambda x: x[1])]
+        return {k: build(c) for (_, k), c in n.items()}
+    return build(root)
 
 
 def spec_tree(pairs):
@@ -130,8 +161,7 @@ def gen(ctx):
             if attempt == 39 or ctx.rng.random() < 0.1 or selects_something(doc, mq, sel):
                 break
         cases.append({"doc": doc, "match": mq, "sel": sel, "style": ctx.rng.choice(["RELATIVE", "FLAT", "ROOT"])})
-    # overlapping selections (a container, then something strictly below it, at every depth): the theorems exclude
-    # them, but the document must still not be modified
+    # overlapping selections (a container and things strictly below it, at every depth, in either order, two or three of them)
     deep = [{"a": {"b": [0, {"x": 2, "y": 3}]}, "c": 1}, {"a": [[1, {"k": [1, 2]}], {"b": {"c": [{"d": 1}]}}]}, [[{"a": [{"b": 1}]}], {"z": [[{"y": 2}]]}]]
     for doc in deep + docs[:6]:
         locs = [(t, v) for t, v in G.locations(doc) if t]
@@ -147,6 +177,11 @@ def gen(ctx):
             def spell(t):
                 return "$" + "".join(f"[{json.dumps(x)}]" if isinstance(x, str) else f"[{x}]" for x in t)
             order = [spell(t1), spell(t2)] if ctx.rng.random() < 0.7 else [spell(t2), spell(t1)]
+            if ctx.rng.random() < 0.4:
+                t3 = ctx.rng.choice(below + [t for t, _ in locs])
+                order.insert(ctx.rng.randint(0, 2), spell(t3))
+            if ctx.rng.random() < 0.2:
+                order.append(order[0])
             cases.append({"doc": doc, "match": "$", "sel": order, "style": ctx.rng.choice(["RELATIVE", "ROOT"])})
     return cases
 
@@ -162,7 +197,7 @@ def evaluate(ctx, cases):
         before = copy.deepcopy(doc)
         style = getattr(Projection, c["style"])
         matches = list(jsonpath.finditer(c["match"], doc))
-        per_match, expect, in_scope = [], [], True
+        per_match, expect, in_scope, overlapping = [], [], True, False
         for m in matches:
             sels = []
             if isinstance(m.obj, (dict, list)):
@@ -185,16 +220,21 @@ def evaluate(ctx, cases):
             if c["style"] == "FLAT":
                 expect.append([v for _, v in sels])
                 continue
-            if not relations([p for p, _ in sels]):
+            asc, disjoint = relations([p for p, _ in sels])
+            if not asc:
                 in_scope = False
                 continue
             pre = tuple(m.parts) if c["style"] == "ROOT" else ()
-            expect.append(spec_tree([(pre + p, v) for p, v in sels]))
+            if disjoint:
+                expect.append(spec_tree([(pre + p, v) for p, v in sels]))
+            else:
+                overlapping = True
+                expect.append(spec_overlap([(pre + p, v) for p, v in sels]))
         o = core.outcome(lambda: list(jsonpath.query(c["match"], doc).select(*c["sel"], projection=style)))
-        work.append((c, doc, before, per_match, expect, in_scope, o))
+        work.append((c, doc, before, per_match, expect, in_scope, overlapping, o))
     outs = ctx.driver.run(reqs, jobs=ctx.jobs)
     k = 0
-    for c, doc, before, per_match, expect, in_scope, o in work:
+    for c, doc, before, per_match, expect, in_scope, overlapping, o in work:
         inp = dict(c)
         model, outside = [], False
         for _ in per_match:
@@ -205,7 +245,7 @@ def evaluate(ctx, cases):
                 outside = True
         ctx.case(repr(c), bool(expect), sample=c)
         ctx.count("style:" + c["style"])
-        ctx.count("scope:" + ("in" if in_scope else "overlapping-or-descending"))
+        ctx.count("scope:" + (("overlapping" if overlapping else "disjoint") if in_scope else "descending"))
         if doc != before or repr(doc) != repr(before):
             ctx.violation("projection must not modify the document", inp, core.canon(doc), core.canon(before))
         if "err" in o:
